@@ -6,9 +6,14 @@ Deciding method: TLC on spec/srvinfo/*.tla.
     MaskExact, DuplicateFree, CompleteExact, LastStepLegal, Commutes, Idempotent.  Pinned model
     (MaskUpdated = FALSE, the code as it is): OnlyKnownBug — every violation of the property is
     preceded by the named action MergeRepeated_KnownBug (finding F1).
-  SrvInfoParse.tla: verdicts of Info*Response::parse on token streams with every numeric field at
-    its boundaries, truncation and non-numbers at every position; classification of the thirteen
-    response kinds; MaskFits (fails for the pinned off-by-one model: defect D6).
+  SrvInfoWire.tla / MC_SrvInfoWire.tla: byte-level grammar of the thirteen response kinds (headers,
+    address records, counts, tokens, decimal and variable-length numbers, UTF-8 strings cut to their
+    capacity, count sanity check, client lists); Parse is evaluated on exhaustive families (every
+    header byte, every prefix, counts x records, offset x records, packet number x records, every
+    numeric field at its boundaries / in every decimal or varint form, every string around its
+    capacity, client orders) - laws Total, MaskFits, SaneWhenSome, ListLaw, Sorted.
+  SrvInfoParse.tla (token level; thorough tier and the D6 self-test): MaskFits fails for the pinned
+    off-by-one model.
   (A) every transition of the merge graph and every parse case is exported and replayed on the
       real parse_response / Info*Response::parse / PartialServerInfo::merge / get_info.
   (B) real-size infos (64 clients, up to 64 packets; permutations, duplications, partials merged into
@@ -99,6 +104,8 @@ def _run_history(trace, event_no):
                 hist.append({"a": "parse", "p": o["p"]})
             elif o["t"] == "M":
                 hist.append({"a": "merge", "i": o["i"], "j": o["j"]})
+            elif o["t"] == "K":
+                hist.append({"a": "take", "i": o["i"]})
             if no == event_no:
                 break
     return {"kind": "merge", "from": {"inst": inst}, "history": hist}
@@ -111,10 +118,10 @@ def _report_known(ctx, shape, count, where, rep):
                "(duplicated or lost clients / wrong completeness)" % (where, count, shape), rep)
 
 
-def _merge_verdict(ctx, exe, tier, pinned):
-    """pinned = (tres, summ, hang) of the export of the pinned model"""
+def _merge_verdict(ctx, exe, tier, pinned, name=""):
+    """pinned = (tres, summ, hang) of the export of the pinned model; name = "", "foreign_" or "rep_" """
     tres, summ, hang = pinned
-    label = "merge graph export, pinned model (Exp_pinned_%s)" % tier
+    label = "merge graph export, pinned model (Exp_%spinned_%s)" % (name, tier)
     if hang is not None:
         ctx.report("hang:merge", "a merge call did not return", {"case": hang})
         return
@@ -127,7 +134,9 @@ def _merge_verdict(ctx, exe, tier, pinned):
     ctx.coverage["distinct_nontrivial"] += summ["nontrivial"]
     for s in summ["samples"]:
         ctx.sample(s)
-    ctx.add_run(label + " replay", edges=summ["edges"], merges=summ["merges"], spec_states=summ["states"],
+    ctx.add_run(label + " replay", edges=summ["edges"], merges=summ["merges"], takes=summ.get("takes"),
+                parses=summ.get("parses"), judged_by_property=summ.get("judged"), error_results=summ.get("error_results"),
+                instances=summ.get("instances"), spec_states=summ["states"],
                 orphans=summ["orphans"], strict_compared=summ["strict_compared"], strict_diff=summ["strict_diff"],
                 known={k["key"]: k["count"] for k in summ["known"]},
                 fixedlike={k["key"]: k["count"] for k in summ["fixedlike"]},
@@ -135,15 +144,15 @@ def _merge_verdict(ctx, exe, tier, pinned):
     if not summ["other"] and not summ["fixedlike"] and summ["orphans"] == 0:
         # the code is the pinned model, step for step
         shapes = [k for k in summ["known"]]
-        for k in shapes[:4]:
+        for k in shapes[:(4 if not name else 1)]:
             _report_known(ctx, k["key"], k["count"], "merge graph", k["first"]["replay"])
         if len(shapes) > 4:
-            ctx.note("further known-bug shapes in the merge graph: %s" % ", ".join(
-                "%s x%d" % (k["key"], k["count"]) for k in shapes[4:]))
+            ctx.note("further known-bug shapes in the merge graph %s: %s" % (name, ", ".join(
+                "%s x%d" % (k["key"], k["count"]) for k in shapes[4:])))
         return
     # the code is not the pinned model: is it the repaired one?
-    ftres, fsumm, fhang = _pipe(ctx, "MC_SrvInfo.tla", "Exp_fixed_%s.cfg" % tier, [exe, "merge"], 1500)
-    flabel = "merge graph export, repaired model (Exp_fixed_%s)" % tier
+    ftres, fsumm, fhang = _pipe(ctx, "MC_SrvInfo.tla", "Exp_%sfixed_%s.cfg" % (name, tier), [exe, "merge"], 1500)
+    flabel = "merge graph export, repaired model (Exp_%sfixed_%s)" % (name, tier)
     if fhang is not None:
         ctx.report("hang:merge", "a merge call did not return", {"case": fhang})
         return
@@ -206,6 +215,35 @@ def _parse_verdict(ctx, tier, parsed):
             k["key"], k["count"], json.dumps(k["first"]["want"])[:80], json.dumps(k["first"]["got"])[:80]))
 
 
+def _wire_verdict(ctx, tier, wired):
+    tres, summ, hang = wired
+    label = "byte-level parse cases export (Exp_wire_%s)" % tier
+    if hang is not None:
+        ctx.report("hang:wire", "a parse call did not return", {"kind": "wire", "case": json.loads(hang)})
+        return
+    ctx.add_states(tres, label)
+    if not tres.ok:
+        ctx.report("spec:wire", "SrvInfoWire violates %s" % tres.violated, {"tlc": tres.out[-2000:]})
+    if summ["cases"] == 0:
+        raise core.ToolError("wire export produced no case")
+    ctx.coverage["evaluations"] += summ["cases"]
+    ctx.coverage["distinct_nontrivial"] += summ["nontrivial"]
+    for s in summ["samples"]:
+        ctx.sample(s)
+    ctx.add_run(label + " replay", cases=summ["cases"], classified=summ["nontrivial"], whole_value_compared=summ["full_compared"],
+                families=summ["families"], panics={k["key"]: k["count"] for k in summ["panics"]},
+                drift={k["key"]: k["count"] for k in summ["drift"]})
+    for k in summ["panics"][:6]:
+        ctx.report(k["key"], "parsing a datagram panicked (%s; %d case(s)); C18: parsing returns a value or nothing" % (
+            k["first"].get("why", "")[:120], k["count"]), k["first"]["replay"])
+    for k in summ["drift"][:6]:
+        ctx.report_drift("parsed value differs from SrvInfoWire.tla (%s x%d): datagram %s" % (
+            k["key"], k["count"], k["first"]["hex"][:120]))
+    if len(summ["drift"]) > 6:
+        ctx.report_drift("parsed value differs from SrvInfoWire.tla in %d further families: %s" % (
+            len(summ["drift"]) - 6, ", ".join(k["key"] for k in summ["drift"][6:16])))
+
+
 def _trace_verdict(ctx, files):
     for f in files:
         label = "trace " + os.path.basename(f["path"])
@@ -259,31 +297,31 @@ def run(ctx):
     exe = os.path.join(bins, "vh-srvinfo")
     wd = ctx.workdir
     ctx.assumptions += [
-        "the parts of one instance have disjoint client ranges and identical headers (one server, one request)",
-        "a 6ex \"more\" packet carries at least one client (servers only send one when clients are left over)",
-        "merging: all parts carry the same token and version (DifferingTokens / DifferingVersions / "
-        "NotMultipartVersion are not explored)",
+        "well-formed server: its parts have disjoint client ranges, the same token and version, headers announcing the "
+        "number of clients there are, and non-empty 6ex \"more\" packets (servers only send one when clients are left over)",
+        "the property speaks about the parts of one info: steps that involve a part of another request (other token / "
+        "version / server), a malformed server (overlapping or out-of-range slots, repeated packet numbers, two main "
+        "packets, empty 'more' packets) or an emptied partial are compared with the detailed model only (DRIFT)",
         "the received mask and the client bag of an incomplete partial are read through the derived Debug image "
         "(strict projection); if that image changes only the observable results are compared",
     ]
-    ctx.coverage["rule"] = ("merge transitions whose expected observation lists >= 2 clients + parse cases the spec "
-                            "accepts (value returned) or classifies as a response kind, each executed on the real code")
-    with cf.ThreadPoolExecutor(max_workers=7) as ex:
+    ctx.coverage["rule"] = ("merge / take_info transitions whose expected observation lists >= 2 clients + datagrams of the "
+                            "byte-level families that the grammar classifies as a response kind, each executed on the real code")
+    with cf.ThreadPoolExecutor(max_workers=12) as ex:
         f_self1 = ex.submit(core.run_tlc, "MC_SrvInfo.tla", "MC_pinned_selftest.cfg", cwd=SPECDIR, workers=1,
-                            timeout=600, metadir=_metadir(ctx, "st1"), env=_jenv(ctx))
+                            timeout=900, metadir=_metadir(ctx, "st1"), env=_jenv(ctx))
         f_self2 = ex.submit(core.run_tlc, "SrvInfoParse.tla", "Parse_pinned.cfg", cwd=SPECDIR, workers=1,
-                            timeout=600, metadir=_metadir(ctx, "st2"), env=_jenv(ctx))
+                            timeout=900, metadir=_metadir(ctx, "st2"), env=_jenv(ctx))
         f_mc = []
-        if not quick:
-            for cfg in ("MC_fixed_thorough.cfg", "MC_pinned_thorough.cfg"):
-                f_mc.append((cfg, ex.submit(core.run_tlc, "MC_SrvInfo.tla", cfg, cwd=SPECDIR, workers=4, timeout=1500,
-                                            coverage=True, metadir=_metadir(ctx, "mc"), env=_jenv(ctx))))
-        else:
-            f_mc.append(("MC_fixed_quick.cfg", ex.submit(
-                core.run_tlc, "MC_SrvInfo.tla", "MC_fixed_quick.cfg", cwd=SPECDIR, workers=2, timeout=600,
-                coverage=True, metadir=_metadir(ctx, "mc"), env=_jenv(ctx))))
-        f_merge = ex.submit(_pipe, ctx, "MC_SrvInfo.tla", "Exp_pinned_%s.cfg" % tier, [exe, "merge"], 1500)
-        f_parse = ex.submit(_pipe, ctx, "SrvInfoParse.tla", "Exp_parse_%s.cfg" % tier, [exe, "parse"], 1500)
+        mcs = (("MC_fixed_quick.cfg", 2),) if quick else (
+            ("MC_fixed_thorough.cfg", 4), ("MC_pinned_thorough.cfg", 4), ("MC_rep_fixed_thorough.cfg", 2))
+        for cfg, nw in mcs:
+            f_mc.append((cfg, ex.submit(core.run_tlc, "MC_SrvInfo.tla", cfg, cwd=SPECDIR, workers=nw, timeout=2400,
+                                        coverage=True, metadir=_metadir(ctx, "mc"), env=_jenv(ctx))))
+        f_merge = [(name, ex.submit(_pipe, ctx, "MC_SrvInfo.tla", "Exp_%spinned_%s.cfg" % (name, tier), [exe, "merge"], 2400))
+                   for name in ("", "foreign_", "rep_")]
+        f_wire = ex.submit(_pipe, ctx, "MC_SrvInfoWire.tla", "Exp_wire_%s.cfg" % tier, [exe, "wire"], 2400)
+        f_parse = None if quick else ex.submit(_pipe, ctx, "SrvInfoParse.tla", "Exp_parse_%s.cfg" % tier, [exe, "parse"], 1500)
         f_drv = ex.submit(core.run_harness, [exe, "drive", str(ctx.seed), tier, os.path.join(wd, "trace")], timeout=1200)
 
         rc, out = f_drv.result()
@@ -312,11 +350,15 @@ def run(ctx):
                 ctx.report("spec:" + cfg, "MC_SrvInfo violates %s: %s" % (res.violated, (res.error or "")[:300]),
                            {"tlc": res.out[-3000:]})
             # in the repaired model MergeRepeated_KnownBug must never be enabled
-            zero = [a for a in res.zero_actions if not ("fixed" in cfg and a == "DoMergeRepeated_KnownBug")]
+            zero = [a for a in res.zero_actions if not ("fixed" in cfg and a in ("DoMergeRepeated_KnownBug", "MergeRepeated_KnownBug"))
+                    and not (a in ("DoTakeInfo", "TakeInfo") and ("pinned" in cfg or cfg == "MC_fixed_quick.cfg"))]
             if zero:
                 raise core.ToolError("vacuity: actions never taken in %s: %s" % (cfg, zero))
-        _parse_verdict(ctx, tier, f_parse.result())
-        _merge_verdict(ctx, exe, tier, f_merge.result())
+        _wire_verdict(ctx, tier, f_wire.result())
+        if f_parse is not None:
+            _parse_verdict(ctx, tier, f_parse.result())
+        for name, fut in f_merge:
+            _merge_verdict(ctx, exe, tier, fut.result(), name)
         f_tr.result()
     ctx.coverage["exhaustive"] = True
     ctx.note("exhaustive within the model constants of the cfg files in spec/srvinfo; 64-client / 64-packet infos "
